@@ -132,7 +132,7 @@ def compose(rnd):
         m0["includes"].append("m0s1")
         s1["imports"] = list(m0["imports"])
     feats = ["uses_in_uses", "uses_in_augment", "augment_into_uses", "sub_augments", "shorthand_everywhere", "ns_under_list",
-             "augment_chain", "lazy_io", "deviate_attrs", "rpc_choice_input", "augment_via_implicit_case", "empty_hooks",
+             "augment_chain", "lazy_io", "deviate_attrs", "rpc_choice_input", "augment_via_implicit_case", "augment_choice_members", "augment_choice_members", "empty_hooks",
              "empty_hooks"]
     late = ["two_augments_same", "two_augments_modules", "augment_vs_uses", "augment_leaf_target", "augment_missing",
             "dev_missing", "dev_min_nonlist", "dev_add_default_twice", "dev_delete_mismatch", "dev_ns_twice", "dev_bad_type",
@@ -342,6 +342,33 @@ def f_empty_hooks(b, m0, m1, s1):
                 src, pfx = m1, "p1"
             child = ("case", nm, [b.leaf()]) if k == "choice" else ("leaf", nm, r.choice(sg.BUILTINS), None, None, None, None)
             src["augments"].append((path(pfx, [cname] + st), [child]))
+
+
+def f_augment_choice_members(b, m0, m1, s1):
+    """augments whose target is a CHOICE and whose bodies hold every kind of member -- a nested choice (the parser rejects
+    choice directly inside choice, so this arises only through augments), directly and through uses of a grouping with a
+    top-level choice, anydata/anyxml/list/leaf-list/container/leaf shorthand members, cases: after a clean Process every
+    child of the target must be a case"""
+    r = b.r
+    tgt = ("choice", b.n("ch"), None, None, None, [("case", b.n("cs"), [b.leaf()])] if r.random() < 0.6 else [])
+    body, steps = b.nest([tgt], r.randint(1, 3), kinds=("container", "list"))
+    m0["body"] += body
+    steps = steps + [tgt[1]]
+    inner = ("choice", b.n("ich"), None, None, None, [b.leaf(), ("case", b.n("cs"), [b.leaf()])])
+    g = b.grouping([("choice", b.n("gch"), None, None, None, [b.cont([b.leaf()]), b.leaf()]), b.leaf()])
+    m0["body"].append(g)
+    members = [inner, ("uses", None), ("any", True, b.n("any"), None, None), ("any", False, b.n("any"), None, None),
+               b.lst([]), ("leaflist", b.n("ll"), "string", None, [], None, None), b.cont([b.shorthand_choice()]), b.leaf(),
+               ("case", b.n("cs"), [b.leaf(), ("choice", b.n("ich"), None, None, None, [b.leaf()])])]
+    chosen = r.sample(members, r.randint(2, 5))
+    if r.random() < 0.7 and inner not in chosen:
+        chosen.append(inner)
+    srcs = [(m0, "p0", g[2]), (m1, "x0", "x0:" + g[2])]
+    for mem in chosen:
+        src, pfx, gref = r.choice(srcs)
+        if mem[0] == "uses":
+            mem = ("uses", gref)
+        src["augments"].append((path(pfx, steps), [mem]))
 
 
 def f_rpc_choice_input(b, m0, m1, s1):
